@@ -129,4 +129,111 @@ theorem reverse_ofList (xs : List Nat) (m : Mem) : reverse (ofList xs) m = (ofLi
     simp only [ofList, List.length_reverse, h0, if_false] at hnodes hsz ⊢
     simp [hnodes, hsz]
 
+theorem toArray_ofList (xs : List Nat) (m : Mem) :
+    toArray (ofList xs) m =
+      if (LSeq.toArray false xs).1 = .ok then
+        (if m.alloc.1 then (.ok, (LSeq.toArray false xs).2, m.alloc.2) else (.errAlloc, none, m.alloc.2))
+      else ((LSeq.toArray false xs).1, none, m) := by
+  unfold toArray LSeq.toArray
+  cases xs with
+  | nil => simp
+  | cons y ys =>
+    simp only [ofList_size, List.length_cons, Nat.add_one_ne_zero, if_false]
+    cases ha : m.alloc.1
+    · simp
+    · rw [ofList_head_ptrAt, collect_ofList _ _ _ 0 (by simp)]
+      simp
+
+theorem sort_ofList (sortFn : List Nat → List Nat) (hlen : ∀ l, (sortFn l).length = l.length) (xs : List Nat) (m : Mem) :
+    sort sortFn (ofList xs) m =
+      if (LSeq.sort false sortFn xs).1 = .ok then
+        (if m.alloc.1 then (.ok, ofList (LSeq.sort false sortFn xs).2, m.alloc.2.free) else (.errAlloc, ofList xs, m.alloc.2))
+      else ((LSeq.sort false sortFn xs).1, ofList xs, m) := by
+  unfold sort
+  rw [toArray_ofList]
+  unfold LSeq.toArray LSeq.sort
+  cases xs with
+  | nil => simp
+  | cons y ys =>
+    simp only [reduceCtorEq, false_and, if_false, if_true]
+    cases ha : m.alloc.1
+    · simp
+    · simp only [if_true, ofList_size]
+      rw [ofList_head_ptrAt]
+      obtain ⟨l', e, h1, h2, h3, h4, h5⟩ := writeBack_spec (y :: ys).length (sortFn (y :: ys)) m.alloc.2
+        (y :: ys).length 0 (ofList (y :: ys)) rfl (by omega) (by rw [hlen]; exact Nat.le_refl _)
+      rw [e]
+      have hnodes : l'.nodes = sortFn (y :: ys) := by
+        apply ext_getD (by rw [h1, hlen])
+        intro j hj
+        rw [h1] at hj
+        rw [h2 j hj, if_pos (by omega)]
+      cases l'
+      simp only [ofList, hlen] at *
+      simp [hnodes, h3, h4, h5]
+theorem reduce_ofList (f : Nat → Nat → Nat) (xs : List Nat) (m : Mem) :
+    reduce f (ofList xs) m = ((LSeq.reduce f xs).1, (LSeq.reduce f xs).2.1, (LSeq.reduce f xs).2.2, m) := by
+  unfold reduce
+  match xs with
+  | [] => simp [LSeq.reduce]
+  | [a] => simp [LSeq.reduce, ofList, Ptr.valid, Chain.data, Ptr.pos]
+  | a :: b :: rest =>
+    simp [LSeq.reduce, ofList, Ptr.valid, Chain.data, Ptr.pos, Ptr.next, Chain.walk]
+    cases rest <;> simp
+
+theorem eraseIdx_append_cons (kept : List Nat) (y : Nat) (ys : List Nat) :
+    (kept ++ y :: ys).eraseIdx kept.length = kept ++ ys := by
+  induction kept with
+  | nil => rfl
+  | cons k ks ih => simp [ih]
+
+theorem filterMutLoop_ofList (p : Nat → Bool) : ∀ (rest kept : List Nat) (k : Nat) (m : Mem), rest.length ≤ k →
+    filterMutLoop p k (ofList (kept ++ rest)) (ptrAt (kept.length + rest.length) kept.length) m =
+      (ofList (kept ++ rest.filter p), Mem.freeN (rest.length - (rest.filter p).length) m)
+  | [], kept, k, m, _ => by
+    cases k <;> simp [filterMutLoop, ptrAt, Mem.freeN]
+  | y :: ys, kept, 0, m, h => by simp at h
+  | y :: ys, kept, k + 1, m, h => by
+    have hlt : kept.length < kept.length + (y :: ys).length := by simp
+    rw [ptrAt_lt _ _ hlt]
+    have hd : (kept ++ y :: ys).getD kept.length 0 = y := by simp
+    simp only [filterMutLoop, ofList_nodes, List.length_append, Ptr.valid, hlt, decide_true, Mem.check_true, data_some, hd]
+    by_cases hp : p y
+    · simp only [hp, Bool.not_true, Bool.false_eq_true, if_false]
+      have e1 : Ptr.next (kept.length + (y :: ys).length) (some kept.length) =
+          ptrAt ((kept ++ [y]).length + ys.length) (kept ++ [y]).length := by
+        simp only [Ptr.next, ptrAt, List.length_append, List.length_cons, List.length_nil]
+        by_cases c : kept.length + 1 < kept.length + (ys.length + 1)
+        · rw [if_pos c, if_pos (by omega)]
+        · rw [if_neg c, if_neg (by omega)]
+      have e2 : kept ++ y :: ys = (kept ++ [y]) ++ ys := by simp
+      rw [e1, e2, filterMutLoop_ofList p ys (kept ++ [y]) k m (by simpa using h)]
+      simp [hp]
+    · simp only [hp, Bool.not_false, if_true]
+      rw [unlinkn_ofList _ _ _ (by simp)]
+      have e1 : (Ptr.next (kept.length + (y :: ys).length) (some kept.length)).shiftDel kept.length =
+          ptrAt (kept.length + ys.length) kept.length := by
+        simp only [Ptr.next, ptrAt, List.length_cons]
+        by_cases c : kept.length + 1 < kept.length + (ys.length + 1)
+        · rw [if_pos c, if_pos (by omega)]; simp [Ptr.shiftDel]
+        · rw [if_neg c, if_neg (by omega)]; rfl
+      rw [e1, eraseIdx_append_cons, filterMutLoop_ofList p ys kept k m.free (by simpa using h)]
+      have hle : (ys.filter p).length ≤ ys.length := List.length_filter_le _ _
+      simp only [List.filter_cons, hp, Bool.false_eq_true, if_false, List.length_cons]
+      rw [show ys.length + 1 - (List.filter p ys).length = (ys.length - (List.filter p ys).length) + 1 by omega]
+      simp [Mem.freeN]
+
+theorem filterMut_ofList (p : Nat → Bool) (xs : List Nat) (m : Mem) :
+    filterMut p (ofList xs) m =
+      ((LSeq.filterMut p xs).1, ofList (LSeq.filterMut p xs).2, Mem.freeN (xs.length - (xs.filter p).length) m) := by
+  unfold filterMut LSeq.filterMut
+  cases xs with
+  | nil => simp [Mem.freeN]
+  | cons y ys =>
+    simp only [ofList_size, List.length_cons, Nat.add_one_ne_zero, if_false, ofList_nodes, reduceCtorEq]
+    rw [ofList_head_ptrAt]
+    have := filterMutLoop_ofList p (y :: ys) [] (ys.length + 1) m (by simp)
+    simp only [List.nil_append, List.length_nil, Nat.zero_add, List.length_cons] at this ⊢
+    rw [this]
+
 end CC.DList
